@@ -275,7 +275,7 @@ pub fn generate(ctx: &Ctx, rng: &mut Rng, n_ops: u64) -> String {
     // a dummy tour [a, x, b] whose middle trip is the only connection (a -> x -> b connectable,
     // a -> b not): taking x out must be refused; otherwise [a, b] can later be handed to a real
     // vehicle as a "trusted" path (C01: consecutive activities connectable)
-    if rng.chance(40) {
+    {
         let nn = ctx.nodes.len();
         let nw = &ctx.nw;
         let mut gaps: Vec<(usize, usize, usize)> = vec![];
@@ -299,17 +299,36 @@ pub fn generate(ctx: &Ctx, rng: &mut Rng, n_ops: u64) -> String {
                 }
             }
         }
-        if !gaps.is_empty() {
-            let maint_gaps: Vec<(usize, usize, usize)> =
-                gaps.iter().copied().filter(|g| nw.node(ctx.n(g.1)).is_maintenance()).collect();
-            let (a, x, b) = if !maint_gaps.is_empty() && rng.chance(50) { *rng.pick(&maint_gaps) } else { *rng.pick(&gaps) };
+        let maint_gaps: Vec<(usize, usize, usize)> =
+            gaps.iter().copied().filter(|g| nw.node(ctx.n(g.1)).is_maintenance()).collect();
+        let wanted = if maint_gaps.is_empty() { rng.chance(40) } else { rng.chance(85) };
+        if wanted && !gaps.is_empty() {
+            let (a, x, b) = if !maint_gaps.is_empty() && rng.chance(75) { *rng.pick(&maint_gaps) } else { *rng.pick(&gaps) };
             let vt = nw.vehicle_type_for(ctx.n(a)).0 as usize;
             let mut run = |st: &mut State, s: &mut String, op: String| {
                 s.push_str(&format!("O {}\n", op));
                 s.push_str(&exec(ctx, st, &op));
             };
             run(&mut st, &mut s, format!("spawn {} {} {} {}", vt, a, x, b));
+            // taking the middle node out of the REAL tour (segment removal, or handing it to another
+            // vehicle) must be refused as well - also when it is a maintenance slot
             if let Some(v) = st.sched.vehicles_iter_all().last() {
+                match rng.below(3) {
+                    0 => run(&mut st, &mut s, format!("rmseg {} {} {}", veh_tok(v), x, x)),
+                    1 => {
+                        let p = random_path(ctx, rng, Some(vt), 1);
+                        if !p.is_empty() {
+                            run(&mut st, &mut s, format!("spawn {} {}", vt, list_tok(p)));
+                            if let Some(r) = st.sched.vehicles_iter_all().filter(|r| *r != v).last() {
+                                let kind = if rng.chance(50) { "override" } else { "fit" };
+                                run(&mut st, &mut s, format!("{} {} {} {} {}", kind, veh_tok(v), veh_tok(r), x, x));
+                            }
+                        }
+                    }
+                    _ => {}
+                }
+            }
+            if let Some(v) = st.sched.vehicles_iter_all().filter(|v| tour_nodes(&st.sched, *v).contains(&a)).last() {
                 run(&mut st, &mut s, format!("delete {}", veh_tok(v)));
             }
             if let Some(d) = st.sched.dummy_iter().last() {
